@@ -130,3 +130,40 @@ Section Machine.
   Definition generate_machine (s : S) (ps : list P) : S :=
     let '(s1, ap) := apply_all ps (add_temp s) [] in remove_temp (unapply_all ap s1).
 End Machine.
+
+(** ** the application order is explicit
+    filterInvalidPayloads applies the three candidate lists one after the other (each stage sees everything kept so
+    far); a block body executes context, then VTBs, then ATVs. [filter3 l1 l2 l3] filters in the order l1, l2, l3 and
+    returns the kept payloads per stage. *)
+Section Order.
+  Variable S P : Type.
+  Variable exec : P -> S -> option S.
+  Variable pre : P -> list P -> bool.
+
+  Definition stage (ps : list P) (s : S) (prev : list P) : S * list P :=
+    filter_apply S P exec (fun p ap => pre p (ap ++ prev)) ps s [].
+
+  Definition filter3 (l1 l2 l3 : list P) (s : S) : S * list P * list P * list P :=
+    let '(s1, m1) := stage l1 s [] in
+    let '(s2, m2) := stage l2 s1 m1 in
+    let '(s3, m3) := stage l3 s2 (m2 ++ m1) in
+    (s3, rev m1, rev m2, rev m3).
+
+  (** the body of a real block: context, VTBs, ATVs *)
+  Definition exec_body (ctx vtbs atvs : list P) (s : S) : option S := exec_all S P exec (ctx ++ vtbs ++ atvs) s.
+
+  (** as coded: the filter order IS the execution order *)
+  Definition filter_as_coded (ctx vtbs atvs : list P) (s : S) : S * list P * list P * list P :=
+    filter3 ctx vtbs atvs s.
+  (** a filter that applies ATVs before VTBs; the returned PopData is (context, vtbs, atvs) all the same *)
+  Definition filter_atvs_first (ctx vtbs atvs : list P) (s : S) : S * list P * list P * list P :=
+    let '(s3, kc, ka, kv) := filter3 ctx atvs vtbs s in (s3, kc, kv, ka).
+End Order.
+
+(** a machine on which the order matters: state = known VBK blocks; ATV 1 brings its block of proof 2 along,
+    VTB 3 needs its containing block 2 to be known *)
+Definition om_exec (p : N) (s : list N) : option (list N) :=
+  if p =? 1 then Some (2 :: s)
+  else if p =? 3 then (if existsb (N.eqb 2) s then Some s else None)
+  else None.
+
